@@ -38,8 +38,8 @@ Record ucase := mkUCase {
 Definition obs_gl (o : uobs) : gl := mkGL (o_keys o) (o_content o).
 
 Definition init_state (c : ucase) : state :=
-  fitted_state_auto (uc_kind c) (obs_gl (uc_obs0 c)) (uc_nan c) (uc_default c)
-                    (o_dropna (uc_obs0 c)) (uc_odt c) (uc_fmts c).
+  fitted_state_fix (uc_kind c) (obs_gl (uc_obs0 c)) (uc_nan c) (uc_default c)
+                   (o_dropna (uc_obs0 c)) (uc_odt c) (uc_fmts c).
 
 (* ---- domain of the model ------------------------------------------------------------------- *)
 Definition numbers_of (l : list val) : list val := filter is_finite l.
@@ -127,8 +127,11 @@ Definition effect_ok (nan : val) (b : uobs) (e : uedit) (a : uobs) : bool :=
     match ue_mode e with
     | MGroup =>
         let dgroup := if mem d (o_keys b) then members b d else [d] in
-        list_eqb val_eqb (o_keys a) (filter (fun x => negb (val_eqb d x)) (o_keys b))
-        && set_eq (members a k) (dgroup ++ members b k)
+        (* a NEW kept name is appended as a new last group first *)
+        let keys1 := if mem k (o_keys b) then o_keys b else o_keys b ++ [k] in
+        let kgroup := if mem k (o_keys b) then members b k else [k] in
+        list_eqb val_eqb (o_keys a) (filter (fun x => negb (val_eqb d x)) keys1)
+        && set_eq (members a k) (dgroup ++ kgroup)
         && same_groups_except b a [k]
     | MReplace =>
         let newgroup := if mem k (members b d) then members b d else k :: members b d in
@@ -145,7 +148,8 @@ Definition dropna_ok (b : uobs) (e : uedit) (a : uobs) : bool :=
 (* label refresh: the implementation's table is the table recomputed from ITS order *)
 Definition labels_ok (c : ucase) (a : uobs) : bool :=
   let g := obs_gl a in
-  ldict_equiv (labels_per_values (uc_kind c) (uc_odt c) (fmt_of (uc_fmts c) (uc_nan c) g) (uc_nan c) g)
+  ldict_equiv (labels_per_values (uc_kind c) (uc_odt c) (fmt_of (uc_fmts c) (uc_nan c) g) (uc_nan c)
+                                (norm_gl (uc_nan c) g))
               (o_lpv a).
 
 (* transform is the lookup described by the (new) order and labels: predicate of C04 *)
